@@ -1,6 +1,7 @@
 import EaselModel.Ssi.Reader
 import EaselModel.Ssi.History
 import EaselModel.Ssi.Auto
+import EaselModel.Ssi.Robust
 /-! # C06 — property theorems (statements + glue only; lemmas live in Ssi/*.lean)
 
 `ns : NewSsi` is the model of the `ESL_NEWSSI` under construction, `ns.WF` says it is what the `esl_newssi_Add*`
@@ -40,10 +41,10 @@ example : StrictSorted [[97], [97, 98], [98]] := by unfold StrictSorted; decide
 
 /-! ## Write -/
 
-/-- `Write` succeeds iff the primary keys are pairwise distinct and the aliases are pairwise distinct; then the
-    file on disk is the image (header, file records, sorted fixed-width key records). Otherwise it returns
-    `eslEDUP` and no index file is left behind. (An alias equal to a primary key is NOT detected: known finding
-    `C06:cross-class-duplicate`, see `cross_class_duplicate_accepted`.) -/
+/-- `Write` succeeds iff ALL keys are distinct — no primary key twice, no alias twice, no alias that is also a
+    primary key (`ns.Distinct`, see `write_ok_iff_distinct` for the plain `Nodup` form); then the file on disk is the
+    image (header, file records, sorted fixed-width key records). Otherwise it returns `eslEDUP` and no index file is
+    left behind. (The cross-class case is the repaired `cross_duplicate()` merge pass.) -/
 theorem write_spec (ns : NewSsi) (h : ns.WF) (cur : Option Bytes) [Decidable ns.Distinct] :
     ((ns.write cur).2.1, (ns.write cur).2.2) =
       if ns.Distinct then (none, some ns.image) else (some .edup, none) := by
@@ -57,9 +58,11 @@ theorem write_spec (ns : NewSsi) (h : ns.WF) (cur : Option Bytes) [Decidable ns.
   simp only [h1, ↓reduceIte, h.notWritten, Bool.false_eq_true, writeBytes_internal ns h]
   by_cases hd : ns.Distinct <;> simp [hd]
 
+/-- writing the index succeeds iff all keys — primary keys and aliases together — are distinct -/
 theorem write_ok_iff_distinct (ns : NewSsi) (h : ns.WF) (cur : Option Bytes) :
-    (ns.write cur).2.1 = none ↔ (ns.pkeys.map (·.key)).Nodup ∧ (ns.skeys.map (·.key)).Nodup := by
+    (ns.write cur).2.1 = none ↔ (ns.pkeys.map (·.key) ++ ns.skeys.map (·.key)).Nodup := by
   classical
+  rw [← ns.distinct_iff_nodup]
   have := write_spec ns h cur
   by_cases hd : ns.Distinct
   · simp only [hd, ↓reduceIte, Prod.mk.injEq] at this
@@ -67,13 +70,13 @@ theorem write_ok_iff_distinct (ns : NewSsi) (h : ns.WF) (cur : Option Bytes) :
   · simp only [hd, ↓reduceIte, Prod.mk.injEq] at this
     exact ⟨fun hn => (by rw [this.1] at hn; cases hn), fun hdd => absurd hdd hd⟩
 
-/-- a duplicate is reported as `eslEDUP` and leaves no index file -/
+/-- a duplicate (within a class or across the classes) is reported as `eslEDUP` and leaves no index file -/
 theorem write_dup_no_file (ns : NewSsi) (h : ns.WF) (cur : Option Bytes)
-    (hdup : ¬ ((ns.pkeys.map (·.key)).Nodup ∧ (ns.skeys.map (·.key)).Nodup)) :
+    (hdup : ¬ (ns.pkeys.map (·.key) ++ ns.skeys.map (·.key)).Nodup) :
     (ns.write cur).2.1 = some .edup ∧ (ns.write cur).2.2 = none := by
   classical
   have := write_spec ns h cur
-  have hd : ¬ ns.Distinct := hdup
+  have hd : ¬ ns.Distinct := fun hd => hdup (ns.distinct_iff_nodup.mp hd)
   simp only [hd, ↓reduceIte, Prod.mk.injEq] at this
   exact this
 
@@ -117,19 +120,16 @@ theorem findName_stored (ns : NewSsi) (h : ns.WF) (cur : Option Bytes) (bytes : 
   rw [open_image h]
   exact findName_primary h hd k hk (FUEL - 1)
 
-/-- `FindName` of an alias returns the record of the primary key it was registered for.
-    Hypotheses: the target is a registered primary key (`AddAlias`'s documented precondition — without it the real
-    recursion need not terminate) and the alias is not itself a primary key (known finding: that cross-class
-    duplicate is accepted by `Write` and the alias is shadowed). FULL statement without `hnp` fails, see
-    `cross_class_duplicate_accepted`. -/
-theorem findName_alias_partial (ns : NewSsi) (h : ns.WF) (cur : Option Bytes) (bytes : Bytes)
+/-- `FindName` of an alias returns the record of the primary key it was registered for, for EVERY alias of a written
+    index. Hypothesis: the target is a registered primary key (`AddAlias`'s documented precondition — without it the real
+    recursion need not terminate). -/
+theorem findName_alias (ns : NewSsi) (h : ns.WF) (cur : Option Bytes) (bytes : Bytes)
     (hw : (ns.write cur).2.2 = some bytes)
-    (a : SKey) (ha : a ∈ ns.skeys) (k : PKey) (hk : k ∈ ns.pkeys) (hak : a.pkey = k.key)
-    (hnp : ∀ k' ∈ ns.pkeys, k'.key ≠ a.key) :
+    (a : SKey) (ha : a ∈ ns.skeys) (k : PKey) (hk : k ∈ ns.pkeys) (hak : a.pkey = k.key) :
     (Ssi.open bytes.toArray).bind (·.findName a.key) = .ok ⟨k.fnum, k.roff, k.doff, k.len⟩ := by
   obtain ⟨hd, rfl⟩ := written_file ns h cur bytes hw
   rw [open_image h]
-  exact findName_alias h hd a ha hnp k hk hak (FUEL - 2)
+  exact EaselModel.Ssi.findName_alias h hd a ha k hk hak (FUEL - 2)
 
 /-- every other string is reported as `eslENOTFOUND` -/
 theorem findName_absent (ns : NewSsi) (h : ns.WF) (cur : Option Bytes) (bytes : Bytes) (hw : (ns.write cur).2.2 = some bytes)
@@ -197,6 +197,106 @@ theorem findSubseq_erange (ns : NewSsi) (h : ns.WF) (cur : Option Bytes) (bytes 
   rw [open_image h]
   exact findSubseq_range h hd k hk start hr hL
 
+/-- `FindSubseq` through an ALIAS: the same documented outcome, computed from the record of the alias's target key and
+    the line geometry of the target's file -/
+theorem findSubseq_alias (ns : NewSsi) (h : ns.WF) (cur : Option Bytes) (bytes : Bytes) (hw : (ns.write cur).2.2 = some bytes)
+    (a : SKey) (ha : a ∈ ns.skeys) (k : PKey) (hk : k ∈ ns.pkeys) (hak : a.pkey = k.key)
+    (hfh : k.fnum < ns.files.length) (hL : k.len < 2^63) :
+    (∀ start : Nat, 1 ≤ start → start ≤ k.len →
+      (Ssi.open bytes.toArray).bind (·.findSubseq a.key (start : Int)) = .ok (subseqSpec k ns.files[k.fnum] start)) ∧
+    (∀ start : Int, (start < 1 ∨ start > (k.len : Int)) →
+      (Ssi.open bytes.toArray).bind (·.findSubseq a.key start) = .error .erange) := by
+  obtain ⟨hd, rfl⟩ := written_file ns h cur bytes hw
+  rw [open_image h]
+  have hfind : ns.opened.findName a.key = .ok (hitOf k) := EaselModel.Ssi.findName_alias h hd a ha k hk hak (FUEL - 2)
+  exact ⟨fun start h1 h2 => findSubseq_of_hit a.key k hfind hfh start h1 h2 hL,
+         fun start hr => findSubseq_range_of_hit a.key k hfind start hr hL⟩
+
+/-- `FindSubseq` of a string that is neither a key nor an alias: `eslENOTFOUND`, whatever the requested start -/
+theorem findSubseq_absent (ns : NewSsi) (h : ns.WF) (cur : Option Bytes) (bytes : Bytes) (hw : (ns.write cur).2.2 = some bytes)
+    (key : Bytes) (hp : ∀ k ∈ ns.pkeys, k.key ≠ key) (hs : ∀ a ∈ ns.skeys, a.key ≠ key) (start : Int) :
+    (Ssi.open bytes.toArray).bind (·.findSubseq key start) = .error .enotfound := by
+  obtain ⟨hd, rfl⟩ := written_file ns h cur bytes hw
+  rw [open_image h]
+  exact findSubseq_of_error _ key start _ (EaselModel.Ssi.findName_absent h hd key hp hs (FUEL - 1))
+
+/-! ## the reader on ANY file contents: truncated, corrupted, unsorted -/
+
+/-- `esl_ssi_Open` on ANY byte string succeeds or fails with `eslEFORMAT` / `eslERANGE` (documented; `eslEMEM` for a
+    zero file-name width) and never reads outside the file; on success it holds `nfiles ≥ 1` file records. -/
+theorem open_any_bytes (d : Array UInt8) :
+    (∀ e, Ssi.open d = .error e → e = .eformat ∨ e = .erange ∨ e = .emem) ∧
+    (∀ s, Ssi.open d = .ok s → s.data = d ∧ 0 < s.nfiles ∧ s.files.length = s.nfiles ∧ (s.offsz = 4 ∨ s.offsz = 8)) :=
+  open_status d
+
+/-- **only for those, on any index**: THIS binary search on ANY record array — unsorted, with unreadable records —
+    returns an index only if that record holds exactly the probe key, and that index is below `maxidx`;
+    otherwise `eslENOTFOUND` or the failure of one of its own reads. It never returns another key's record. -/
+theorem bsearch_any_array (rdName : Nat → Except St Bytes) (key : Bytes) (n : Nat) :
+    (∀ j, bsearchLoop rdName key 0 (n - 1) = .ok j → rdName j = .ok key ∧ j ≤ n - 1) ∧
+    (∀ e, bsearchLoop rdName key 0 (n - 1) = .error e → e = .enotfound ∨ ∃ m, m ≤ n - 1 ∧ rdName m = .error e) := by
+  constructor
+  · intro j h
+    have := bsearchLoop_sound rdName key 0 (n - 1) j h
+    exact ⟨this.1, by omega⟩
+  · intro e h
+    rcases bsearchLoop_error rdName key 0 (n - 1) e h with h1 | ⟨m, hm, hr⟩
+    · exact .inl h1
+    · exact .inr ⟨m, by omega, hr⟩
+
+/-- `esl_ssi_FindName` on ANY opened byte string (truncated, corrupted, key sections not sorted): an `eslOK` answer
+    carries the numbers of a stored primary record whose key field is exactly the probe, or of one reached from the probe
+    through stored alias records (`Ssi.Resolves`) — absent or that key's record, never another key's. Every other answer
+    is `eslENOTFOUND`, `eslEFORMAT`, (`eslEMEM`,) or one of the model's two fault outcomes. -/
+theorem findName_any_index (s : Ssi) (key : Bytes) :
+    (∀ hit, s.findName key = .ok hit → s.Resolves key hit) ∧
+    (∀ e, s.findName key = .error e → e = .enotfound ∨ e = .eformat ∨ e = .emem ∨ e = .fault ∨ e = .nohalt) :=
+  ⟨fun hit h => findName_sound s FUEL key hit h, fun e h => findName_status s FUEL key e h⟩
+
+/-- **no fault**: when the key fields that can be read are terminated (`Ssi.Terminated`) and no stored alias names
+    another stored alias (`Ssi.NoAliasChain`) — both true of every index `Write` produces, and both readable off the
+    bytes — `FindName` on an index that is otherwise arbitrary (truncated anywhere, unsorted, counts and offsets
+    inconsistent) ends with `eslOK`, `eslENOTFOUND`, `eslEFORMAT` or `eslEMEM`: `strcmp` stays inside its buffers and
+    the alias recursion is one level deep. -/
+theorem findName_no_fault (s : Ssi) (ht : s.Terminated) (hc : s.NoAliasChain) (key : Bytes) :
+    (∃ hit, s.findName key = .ok hit) ∨ s.findName key = .error .enotfound ∨ s.findName key = .error .eformat ∨
+      s.findName key = .error .emem := by
+  cases hf : s.findName key with
+  | ok hit => exact .inl ⟨hit, rfl⟩
+  | error e =>
+    right
+    have h1 := findName_status s FUEL key e hf
+    have h2 := EaselModel.Ssi.findName_no_fault s ht FUEL key
+    have h3 := findName_halts s hc (FUEL - 2) key
+    rcases h1 with rfl | rfl | rfl | rfl | rfl
+    · exact .inl rfl
+    · exact .inr (.inl rfl)
+    · exact .inr (.inr rfl)
+    · exact absurd hf h2
+    · exact absurd hf h3
+
+/-- `esl_ssi_FindNumber` on ANY index, for every `int64_t`: `eslENOTFOUND` exactly outside `0..nprimary-1`; inside,
+    the record in that slot or `eslEFORMAT` when the file ends first (`eslEMEM` for a zero-width key field) -/
+theorem findNumber_any_index (s : Ssi) (i : Int) (hlo : -(2:Int)^63 ≤ i) (hhi : i < (2:Int)^63) (hn : s.nprimary < 2^63) :
+    (s.findNumber i = .error .enotfound ↔ (i < 0 ∨ (s.nprimary : Int) ≤ i)) ∧
+    (∀ e, s.findNumber i = .error e → e = .enotfound ∨ e = .eformat ∨ e = .emem) :=
+  findNumber_status s i hlo hhi hn
+
+/-- `esl_ssi_FileInfo` for EVERY handle of ANY index that `Open` accepted: a record below `nfiles`, `eslEINVAL` otherwise -/
+theorem fileInfo_any_index (d : Array UInt8) (s : Ssi) (h : Ssi.open d = .ok s) (fh : Nat) :
+    (fh < s.nfiles → ∃ f, s.fileInfo fh = .ok f ∧ s.files[fh]? = some f) ∧
+    (s.nfiles ≤ fh → s.fileInfo fh = .error .einval) :=
+  fileInfo_total d s h fh
+
+/-- `esl_ssi_FindSubseq` on ANY index: `FindName`'s status, `eslERANGE`, `eslEINVAL`, or a fault in exactly two
+    situations that a written index excludes: the file handle stored with the key is not a file of the index, or its file
+    claims fast-subseq geometry with `rpl = 0` -/
+theorem findSubseq_any_index (s : Ssi) (key : Bytes) (start : Int) (e : St) (h : s.findSubseq key start = .error e) :
+    (s.findName key = .error e) ∨ e = .erange ∨ e = .einval ∨
+    (e = .fault ∧ ∃ hit, s.findName key = .ok hit ∧
+      (s.files[hit.fh]? = none ∨ ∃ f, s.files[hit.fh]? = some f ∧ f.flags % 2 = 1 ∧ f.rpl = 0)) :=
+  findSubseq_status s key start e h
+
 /-! ## internal sort = external sort, for every insertion history -/
 
 /-- The bytes of the index (and the status, duplicates included) are the same whether the keys were sorted in
@@ -240,13 +340,13 @@ theorem external_is_permanent (ns : NewSsi) (ops : List Op) (h : ns.external = t
 example : ({ plen := 201, nprimary := 9500000 } : NewSsi).maybeExternal.external = true := by decide
 example : ({ plen := 201, nprimary := 9400000 } : NewSsi).maybeExternal.external = false := by decide
 
-/-- end to end: after any valid history (external switch anywhere), `Write` succeeds iff the keys are distinct per
-    class; and on the bytes it wrote every stored primary key is found with its stored record and every string that
+/-- end to end: after any valid history (external switch anywhere), `Write` succeeds iff all keys (primary keys and
+    aliases together) are distinct; and on the bytes it wrote every stored primary key is found with its stored record and every string that
     is neither a key nor an alias is `eslENOTFOUND`. -/
 theorem history_index_correct (ops : List Op) (hv : ∀ op ∈ ops, op.Valid) (hf : (logical ops).files ≠ [])
     (hn : ops.length < 2^40) (cur : Option Bytes) :
     (((run ops).write cur).2.1 = none ↔
-        ((logical ops).pkeys.map (·.key)).Nodup ∧ ((logical ops).skeys.map (·.key)).Nodup) ∧
+        ((logical ops).pkeys.map (·.key) ++ (logical ops).skeys.map (·.key)).Nodup) ∧
     (((run ops).write cur).2.1 ≠ none → ((run ops).write cur).2 = (some .edup, none)) ∧
     (∀ bytes, ((run ops).write cur).2.2 = some bytes →
       (∀ k ∈ (logical ops).pkeys,
@@ -260,7 +360,7 @@ theorem history_index_correct (ops : List Op) (hv : ∀ op ∈ ops, op.Valid) (h
   · rw [h1]; exact write_ok_iff_distinct _ hwf cur
   · intro hne
     rw [h1] at hne
-    have hd : ¬ (((logical ops).pkeys.map (·.key)).Nodup ∧ ((logical ops).skeys.map (·.key)).Nodup) :=
+    have hd : ¬ ((logical ops).pkeys.map (·.key) ++ (logical ops).skeys.map (·.key)).Nodup :=
       fun hd => hne ((write_ok_iff_distinct _ hwf cur).mpr hd)
     have := write_dup_no_file _ hwf cur hd
     rw [heq]
@@ -270,16 +370,14 @@ theorem history_index_correct (ops : List Op) (hv : ∀ op ∈ ops, op.Valid) (h
     exact ⟨fun k hk => findName_stored _ hwf cur bytes hb k hk,
            fun key hp hs => findName_absent _ hwf cur bytes hb key hp hs⟩
 
-/-- after any valid history: an alias whose target is a registered primary key, and that is not itself a primary key
-    (known finding otherwise), is found with the target's record -/
-theorem history_alias_partial (ops : List Op) (hv : ∀ op ∈ ops, op.Valid) (hf : (logical ops).files ≠ [])
+/-- after any valid history: every alias whose target is a registered primary key is found with the target's record -/
+theorem history_alias (ops : List Op) (hv : ∀ op ∈ ops, op.Valid) (hf : (logical ops).files ≠ [])
     (hn : ops.length < 2^40) (cur : Option Bytes) (bytes : Bytes) (hw : ((run ops).write cur).2.2 = some bytes)
-    (a : SKey) (ha : a ∈ (logical ops).skeys) (k : PKey) (hk : k ∈ (logical ops).pkeys) (hak : a.pkey = k.key)
-    (hnp : ∀ k' ∈ (logical ops).pkeys, k'.key ≠ a.key) :
+    (a : SKey) (ha : a ∈ (logical ops).skeys) (k : PKey) (hk : k ∈ (logical ops).pkeys) (hak : a.pkey = k.key) :
     (Ssi.open bytes.toArray).bind (·.findName a.key) = .ok ⟨k.fnum, k.roff, k.doff, k.len⟩ := by
   obtain ⟨hwf, heq⟩ := run_write_eq_logical ops hv hf hn cur
   rw [heq] at hw
-  exact findName_alias_partial _ hwf cur bytes hw a ha k hk hak hnp
+  exact findName_alias _ hwf cur bytes hw a ha k hk hak
 
 /-- after any valid history: `FindNumber` enumerates the logical content's primary keys in `strcmp` order, and
     `FileInfo` reports the registered files -/
@@ -303,7 +401,7 @@ theorem history_enumeration (ops : List Op) (hv : ∀ op ∈ ops, op.Valid) (hf 
   have := fileInfo_spec _ hwf cur bytes hw fh
   simpa [hfh] using this
 
-/-! ## non-vacuity and the known finding -/
+/-! ## non-vacuity, and the repaired cross-class duplicate -/
 
 /-- a concrete history: one file, keys `a`, `ab`, `b` (a prefix chain), alias `z → ab`, switch to the external sort
     after the first key -/
@@ -319,8 +417,9 @@ example : ∀ op ∈ exOps, op.Valid := by
 example : (run exOps).external = true ∧ (logical exOps).external = false := by decide
 example : (logical exOps).files ≠ [] := by decide
 example : (logical exOps).pkeys.map (·.key) = [[97, 98], [97], [98]] := by decide
+example : ((logical exOps).pkeys.map (·.key) ++ (logical exOps).skeys.map (·.key)).Nodup := by decide
 
-/-- the index of the known finding: primary keys `k1`, `k2` and the alias `k2 → k1` -/
+/-- the index of the former known finding `C06:cross-class-duplicate`: primary keys `k1`, `k2` and the alias `k2 → k1` -/
 def exCross : NewSsi :=
   { files := [{ name := [102], fmt := 1, bpl := 0, rpl := 0 }], flen := 2,
     pkeys := [⟨[107, 49], 0, 1, 2, 3⟩, ⟨[107, 50], 0, 4, 5, 6⟩], plen := 3, nprimary := 2,
@@ -332,19 +431,20 @@ theorem exCross_wf : exCross.WF := by
 example : exCross.ExtOK := by
   constructor <;> simp [exCross, KeyChars, NoDelim, isDelim]
 
-example : exCross.Distinct := by unfold NewSsi.Distinct; decide
+/-- each class on its own has distinct keys: only the merge pass can see this duplicate -/
+example : (exCross.pkeys.map (·.key)).Nodup ∧ (exCross.skeys.map (·.key)).Nodup := by decide
 
-/-- KNOWN FINDING `C06:cross-class-duplicate` (counter-example to the full-strength statement "Write succeeds iff
-    ALL keys are distinct" and to `findName_alias` without its hypothesis `hnp`): an alias equal to a primary key is
-    accepted by `Write`, and looking it up returns the primary key's own record, not the alias target's. -/
-theorem cross_class_duplicate_accepted :
+/-- REGRESSION for the repaired defect (was known finding `C06:cross-class-duplicate`): an alias equal to a primary
+    key is reported as `eslEDUP`, in memory and through the external sort, and no index file is left. -/
+theorem cross_class_duplicate_rejected :
     (∃ a ∈ exCross.skeys, ∃ k ∈ exCross.pkeys, a.key = k.key) ∧
-    (exCross.write (some [])).2.1 = none ∧
-    (∀ bytes, (exCross.write (some [])).2.2 = some bytes →
-      (Ssi.open bytes.toArray).bind (·.findName [107, 50]) = .ok ⟨0, 4, 5, 6⟩) := by
+    (exCross.write (some [])).2 = (some .edup, none) ∧
+    (exCross.toExternal.write (some [])).2 = (some .edup, none) := by
   refine ⟨⟨⟨[107, 50], [107, 49]⟩, by decide, ⟨[107, 50], 0, 4, 5, 6⟩, by decide, rfl⟩, ?_, ?_⟩
-  · exact (write_ok_iff_distinct exCross exCross_wf _).mpr (by decide)
-  · intro bytes hb
-    exact findName_stored exCross exCross_wf _ bytes hb ⟨[107, 50], 0, 4, 5, 6⟩ (by decide)
+  · have := write_dup_no_file exCross exCross_wf (some []) (by decide)
+    exact Prod.ext this.1 this.2
+  · rw [write_toExternal exCross exCross_wf (by constructor <;> simp [exCross, KeyChars, NoDelim, isDelim])]
+    have := write_dup_no_file exCross exCross_wf (some []) (by decide)
+    exact Prod.ext this.1 this.2
 
 end EaselModel.Props.C06
